@@ -80,10 +80,13 @@ def run(ctx):
         assign(m, c)
         return m
 
-    def assign(m, c):
-        """Plain attribute assignment of every field of case c to an existing message object."""
+    def assign(m, c, inplace=False):
+        """Plain attribute assignment of every field of case c to an existing message object; with
+        inplace the burst the object already has is resized where it is (del / extend), as a caller
+        that trims or pads a burst does, instead of being replaced."""
         m.fn, m.tn, m.ver = opt(c["fn"]), opt(c["tn"]), opt(c["ver"])
         bl = opt(c["blen"])
+        old = m.burst if inplace else None
         if c["cls"] == "tx":
             m.pwr = opt(c["pwr"])
             m.burst = None if bl is None else bytearray(rng.getrandbits(1) for _ in range(bl))
@@ -93,6 +96,12 @@ def run(ctx):
             m.mod_type = D.MODOF.get(c["mod"], c["mod"])
             m.nope_ind = c["nope"]
             m.burst = None if bl is None else array("b", [rng.randint(-127, 127) for _ in range(bl)])
+        if old is not None and m.burst is not None and type(old) is type(m.burst):
+            new = m.burst
+            del old[len(new):]
+            old[:] = new[:len(old)]
+            old.extend(new[len(old):])
+            m.burst = old
 
     # the verdict must depend on the field values only, not on the object's history: every case is
     # also reached by re-assigning the fields of an object that has just been validated and sent
@@ -111,7 +120,7 @@ def run(ctx):
         net.take()
         dif.send_msg(m)
         net.take()
-        assign(m, c)
+        assign(m, c, inplace=(k % 2 == 0))
         g = outcome(m.gen_msg)
         s2 = outcome(lambda: dif.send_msg(m))
         sent = net.take()
